@@ -7,7 +7,7 @@
    is accepted by check_schedule (to_timings_valid); the model's schedule is compared with rex's Timings on every instance (TTMATCH), check_mono is evaluated
    on every instance (CHECKMONO). *)
 From Coq Require Import List Arith ZArith Bool.
-From Rex Require Import CompiledModel WindowSpec WindowPush ScheduleSpec ScheduleCover BufferSufficient ToTimings ToTimingsLaws ToTimingsExtra.
+From Rex Require Import CompiledModel WindowSpec WindowPush ScheduleSpec ScheduleCover BufferSufficient ToTimings ToTimingsLaws ToTimingsExtra ExportReplay SchedOk.
 Open Scope Z_scope.
 
 (* soundness of the extracted validator: an accepted schedule satisfies ValidSchedule (every running slot carries a vertex of its own kind with that vertex's seq, times and window; no vertex twice; predecessor step and every window producer strictly earlier; supervisor step p closes partition p; one slot per kind and generation) *)
@@ -114,4 +114,14 @@ Print Assumptions C07_to_timings_extra_example.
 Theorem C07_to_timings_extra_needs_sup_covered : check_mono exI exT exM_nosup = true /\ sup_covered exI exM_nosup = false /\ check_schedule (set_slots exI (to_timings exI exT exM_nosup)) = true /\ extra_ok (set_slots exI (to_timings exI exT exM_nosup)) = false.
 Proof. exact @ex_nosup. Qed.
 Print Assumptions C07_to_timings_extra_needs_sup_covered.
+
+(* every window apply_window (win_model) computes is non-empty and canonical (an entry with a negative seq is exactly the default entry) when the connection's window is >= 1 and the recorded messages carry non-negative sequence numbers *)
+Theorem C07_win_model_wcanon : forall (I : inst) (c : nat), (1 <= k_win (conn I c))%nat -> (forall e : edge, In e (nth c (i_edges I) nil) -> 0 <= e_out e) -> forall w : list wentry, In w (win_model I c) -> wcanon w = true.
+Proof. exact @win_model_wcanon. Qed.
+Print Assumptions C07_win_model_wcanon.
+
+(* every cell the runner executes in the schedule to_timings builds runs and carries canonical windows (sched_ok), from check_mono, extra_ok and the window hypothesis *)
+Theorem C07_to_timings_sched_ok : forall (I : inst) (tmpl : list (nat * nat)) (M : list mentry), check_mono I tmpl M = true -> (forall c : nat, In c (seq 0 (length (i_conns I))) -> (1 <= k_win (conn I c))%nat /\ (forall e : edge, In e (nth c (i_edges I) nil) -> 0 <= e_out e)) -> forall n : nat, extra_ok (set_slots I (to_timings I tmpl M)) = true -> (n <= i_nparts I)%nat -> sched_ok (set_slots I (to_timings I tmpl M)) 0 n = true.
+Proof. exact @to_timings_sched_ok. Qed.
+Print Assumptions C07_to_timings_sched_ok.
 
